@@ -39,15 +39,23 @@ class TypeErr(Exception):
 
 def py_binop(op, a: str, b: str) -> str:
     """FT-py-numeric."""
+    # "Fraction" is a *proper* ratio (the language never holds an integral one: the reader and
+    # every arithmetic arm normalise n/1 to n); "RawFraction" is a fractions.Fraction that may be
+    # integral and still has to pass the normalisation.
     s = {a, b}
-    if "Decimal" in s and ("float" in s or "Fraction" in s):
+    fr = {"Fraction", "RawFraction"}
+    if "Decimal" in s and ("float" in s or s & fr):
         raise TypeErr(f"unsupported operand type(s): {a} and {b}")
     if "float" in s:
         return "float"
     if "Decimal" in s:
         return "Decimal"
-    if "Fraction" in s:
-        return "Fraction"
+    if s & fr:
+        if op is ast.FloorDiv:
+            return "int"
+        if op in (ast.Add, ast.Sub) and "RawFraction" not in s and "int" in s:
+            return "Fraction"  # integer +/- proper ratio is a proper ratio
+        return "RawFraction"
     # int, int
     return "float" if op is ast.Div else "int"
 
@@ -142,7 +150,7 @@ class AbsEval:
             have = env.get(t.args[0].id)
             spec = t.args[1]
             names = [P.un(x) for x in (spec.elts if isinstance(spec, ast.Tuple) else [spec])]
-            return any(n in DISPATCH_KEY.get(have, ()) for n in names)
+            return any(n in DISPATCH_KEY.get("Fraction" if have == "RawFraction" else have, ()) for n in names)
         if isinstance(t, ast.BoolOp):
             vals = [self.test(v, env) for v in t.values]
             if isinstance(t.op, ast.And):
@@ -191,14 +199,14 @@ class AbsEval:
                 return {"int"}
             if f in ("decimal.Decimal", "Decimal"):
                 for a in args[0]:
-                    if a == "Fraction":
+                    if a in ("Fraction", "RawFraction"):
                         raise TypeErr("decimal.Decimal(Fraction) is a TypeError")
                 return {"Decimal"}
             if f in ("Fraction", "fractions.Fraction"):
                 for combo in itertools.product(*args):
-                    if len(combo) == 2 and set(combo) - {"int", "Fraction"}:
+                    if len(combo) == 2 and set(combo) - {"int", "Fraction", "RawFraction"}:
                         raise TypeErr(f"Fraction({', '.join(combo)}) is a TypeError")
-                return {"Fraction"}
+                return {"RawFraction"}
             if f in ("math.trunc", "math.floor", "math.ceil"):
                 return {"int"}
             if f.endswith(".as_integer_ratio"):
@@ -243,8 +251,8 @@ def _table(ctx):
                 try:
                     r = ev.call(fn, [ta, tb])
                     raw[(opname, ta, tb)] = (fn, set(r))
-                    if _normalized(fn) and "Fraction" in r:
-                        r = set(r) | {"int"}
+                    if _normalized(fn) and "RawFraction" in r:
+                        r = (set(r) - {"RawFraction"}) | {"int", "Fraction"}
                     table[(opname, ta, tb)] = r
                 except TypeErr as e:
                     raw[(opname, ta, tb)] = (fn, str(e))
@@ -290,10 +298,10 @@ def r2_normalisation_on_every_arm(ctx):
         if (op, fn.name) in seen:
             continue
         seen.add((op, fn.name))
-        can_frac = any(not isinstance(raw[(op, ta, t2)][1], str) and "Fraction" in raw[(op, ta, t2)][1] for t2 in T)
+        can_frac = [t2 for t2 in T if not isinstance(raw[(op, ta, t2)][1], str) and "RawFraction" in raw[(op, ta, t2)][1]]
         ok = _normalized(fn) or not can_frac
         ctx.ob("C20.R2", f"{NUM}::{fn.name}::normalised", NUM, fn.lineno, ok,
-               "" if ok else f"{fn.name} can return a Fraction but lacks _normalize_fraction_result: an integral ratio would stay a Fraction (e.g. 2/1)")
+               "" if ok else f"{fn.name}({ta}, {can_frac[0]}) can produce an integral fractions.Fraction (e.g. 3 * 1/3) but lacks _normalize_fraction_result: the result stays 1/1 instead of the integer 1")
         # decorator order: register must be outermost so that the *normalised* function is registered
         decs = P.decorators(fn)
         if _normalized(fn) and len(decs) >= 2:
@@ -339,6 +347,13 @@ class LispTypes:
         out = set()
         for a in A:
             for b in B:
+                if "TypeError" in (a, b) or "None" in (a, b):
+                    out.add("TypeError")
+                    continue
+                if "RawFraction" in (a, b):
+                    out.add("RawFraction")  # an un-normalised ratio already escaped; keep the taint
+                a = "Fraction" if a == "RawFraction" else a
+                b = "Fraction" if b == "RawFraction" else b
                 r = self.table[(opname, a, b)]
                 if isinstance(r, str):
                     out.add("TypeError")
@@ -372,6 +387,18 @@ class LispTypes:
             for v in vals[1:]:
                 acc = self.op(binop[h], acc, v)
             return acc
+        pyop = {"operator/add": ast.Add, "operator/sub": ast.Sub, "operator/mul": ast.Mult, "operator/truediv": ast.Div,
+                "operator/mod": ast.Mod, "operator/floordiv": ast.FloorDiv}
+        if h in pyop:
+            A, B = self.ev(args[0], env), self.ev(args[1], env)
+            out = set()
+            for a in A:
+                for b in B:
+                    try:
+                        out.add(py_binop(pyop[h], a, b))
+                    except TypeErr:
+                        out.add("TypeError")
+            return out
         if h in ("math/floor", "math/ceil", "python/int", "int"):
             for a in args:
                 self.ev(a, env)
@@ -384,7 +411,7 @@ class LispTypes:
             A = self.ev(args[0], env)
             out = set()
             for a in A:
-                out |= {"int": {"int"}, "Fraction": {"int", "Fraction"}, "Decimal": {"Decimal"}, "float": {"float"}}.get(a, {a})
+                out |= {"int": {"int"}, "Fraction": {"int", "Fraction"}, "RawFraction": {"int", "Fraction"}, "Decimal": {"Decimal"}, "float": {"float"}}.get(a, {a})
             return out
         if h in ("let", "let*"):
             e2 = dict(env)
